@@ -3,6 +3,8 @@ package main
 // net/http, net/url (UF level), gorilla-style schema codec, securecookie, oauth2 models.
 
 import (
+	"go/types"
+
 	"golang.org/x/tools/go/ssa"
 )
 
@@ -21,4 +23,606 @@ func init() {
 	for _, m := range []string{"IgnoreUnknownKeys", "SetAliasTag", "ZeroEmpty", "RegisterConverter"} {
 		reg("(*"+schemaPkg+".Decoder)."+m, func(ex *Exec, fn *ssa.Function, a []Value) Value { return nil })
 	}
+}
+
+// ======================= net/http request / response model =======================
+
+func init() {
+	// --- verifnd.Request(method, target string, form url.Values, basicUser, basicPass string, hasBasic, badForm bool) *http.Request
+	reg(nd("Request"), func(ex *Exec, fn *ssa.Function, a []Value) Value {
+		reqT := fn.Signature.Results().At(0).Type().(*types.Pointer).Elem()
+		sv := zeroValue(reqT).(*StructV)
+		sv.Fields[fieldIndex(reqT, "Method")] = a[0]
+		// URL
+		urlPT := structOf(reqT).Field(fieldIndex(reqT, "URL")).Type()
+		urlT := urlPT.(*types.Pointer).Elem()
+		uv := zeroValue(urlT).(*StructV)
+		uv.Fields[fieldIndex(urlT, "Path")] = a[1]
+		sv.Fields[fieldIndex(reqT, "URL")] = Ptr{Obj: ex.newObj(uv, urlT)}
+		ex.nextID++
+		sv.Fields[fieldIndex(reqT, "Header")] = &MapV{ID: ex.nextID}
+		meta := ex.newOpaque("reqmeta")
+		meta.Attrs["form"] = a[2]
+		meta.Attrs["basicUser"] = a[3]
+		meta.Attrs["basicPass"] = a[4]
+		meta.Attrs["hasBasic"] = a[5]
+		meta.Attrs["badForm"] = a[6]
+		sv.Fields[fieldIndex(reqT, "Body")] = Iface{T: opaqueType("reqmeta"), V: meta}
+		sv.Fields[fieldIndex(reqT, "Host")] = ex.fresh("req.host", SSeq, "env")
+		return Ptr{Obj: ex.newObj(sv, reqT)}
+	})
+	opaqueMethods["reqmeta.Close"] = func(ex *Exec, o *Opaque, a []Value) Value { return Iface{} }
+
+	reqOf := func(ex *Exec, v Value) (*StructV, types.Type) {
+		p := v.(Ptr)
+		if p.Obj == nil {
+			ex.goPanic("nil *http.Request")
+		}
+		return (*p.slot()).(*StructV), ex.eng.LookupType("net/http", "Request")
+	}
+	metaOf := func(ex *Exec, sv *StructV, t types.Type) *Opaque {
+		if b, ok := sv.Fields[fieldIndex(t, "Body")].(Iface); ok && b.T != nil {
+			if m, ok := b.V.(*Opaque); ok && m.Kind == "reqmeta" {
+				return m
+			}
+		}
+		return nil
+	}
+	parseForm := func(ex *Exec, v Value) Value {
+		sv, t := reqOf(ex, v)
+		fi := fieldIndex(t, "Form")
+		if m, ok := sv.Fields[fi].(*MapV); ok && m != nil {
+			return Iface{}
+		}
+		meta := metaOf(ex, sv, t)
+		ex.nextID++
+		form := &MapV{ID: ex.nextID}
+		ex.nextID++
+		post := &MapV{ID: ex.nextID}
+		bad := false
+		if meta != nil {
+			if src, ok := meta.Attrs["form"].(*MapV); ok && src != nil {
+				for _, e := range src.Entries {
+					form.Entries = append(form.Entries, MapEntry{K: e.K, V: ex.deepCopy(e.V, map[*Object]*Object{})})
+					post.Entries = append(post.Entries, MapEntry{K: e.K, V: ex.deepCopy(e.V, map[*Object]*Object{})})
+				}
+			}
+			bad = ex.Branch(meta.Attrs["badForm"].(*Term))
+		}
+		// a malformed pair in the body: net/http keeps every well-formed pair and reports the first
+		// error once (a second ParseForm finds PostForm set and returns nil)
+		sv.Fields[fi] = form
+		sv.Fields[fieldIndex(t, "PostForm")] = post
+		if bad {
+			return errorIface(ex, "http.ParseForm")
+		}
+		return Iface{}
+	}
+	reg("(*net/http.Request).ParseForm", func(ex *Exec, fn *ssa.Function, a []Value) Value { return parseForm(ex, a[0]) })
+	reg("(*net/http.Request).FormValue", func(ex *Exec, fn *ssa.Function, a []Value) Value {
+		parseForm(ex, a[0])
+		sv, t := reqOf(ex, a[0])
+		form := sv.Fields[fieldIndex(t, "Form")].(*MapV)
+		if v, ok := ex.mapGet(form, a[1]); ok {
+			if s, ok := v.(SliceV); ok && s.Len > 0 {
+				return s.get(0)
+			}
+		}
+		return StrLit("")
+	})
+	reg("(*net/http.Request).PostFormValue", intrinsics["(*net/http.Request).FormValue"])
+	reg("(*net/http.Request).BasicAuth", func(ex *Exec, fn *ssa.Function, a []Value) Value {
+		sv, t := reqOf(ex, a[0])
+		meta := metaOf(ex, sv, t)
+		if meta == nil {
+			return Tuple{StrLit(""), StrLit(""), tFalse}
+		}
+		if ex.Branch(meta.Attrs["hasBasic"].(*Term)) {
+			return Tuple{meta.Attrs["basicUser"], meta.Attrs["basicPass"], tTrue}
+		}
+		return Tuple{StrLit(""), StrLit(""), tFalse}
+	})
+	reg("(*net/http.Request).Context", func(ex *Exec, fn *ssa.Function, a []Value) Value {
+		sv, t := reqOf(ex, a[0])
+		c := sv.Fields[fieldIndex(t, "ctx")]
+		if iv, ok := c.(Iface); ok && iv.T != nil {
+			return iv
+		}
+		bg := ex.newCtx(nil)
+		sv.Fields[fieldIndex(t, "ctx")] = bg
+		return bg
+	})
+	reg("(*net/http.Request).WithContext", func(ex *Exec, fn *ssa.Function, a []Value) Value {
+		sv, t := reqOf(ex, a[0])
+		if c, ok := a[1].(Iface); !ok || c.T == nil {
+			ex.goPanic("nil context")
+		}
+		// force the lazily created context before copying so both share its ancestry
+		n := &StructV{Fields: append([]Value{}, sv.Fields...)}
+		n.Fields[fieldIndex(t, "ctx")] = a[1]
+		return Ptr{Obj: ex.newObj(n, t)}
+	})
+	reg("(*net/http.Request).Cookie", func(ex *Exec, fn *ssa.Function, a []Value) Value { return ex.requestCookie(a[0], a[1].(*Term), fn) })
+	reg("(*net/http.Request).Referer", func(ex *Exec, fn *ssa.Function, a []Value) Value { return ex.fresh("req.referer", SSeq, "env") })
+
+	// --- headers (concrete keys, canonicalised)
+	canon := func(k Value) *Term {
+		t := k.(*Term)
+		if !t.IsLit() {
+			panic(engineErr("symbolic header name"))
+		}
+		return StrLit(textprotoCanonical(t.S))
+	}
+	reg("(net/http.Header).Set", func(ex *Exec, fn *ssa.Function, a []Value) Value {
+		m := a[0].(*MapV)
+		if m == nil {
+			ex.goPanic("assignment to entry in nil map (http.Header)")
+		}
+		ex.mapSet(m, canon(a[1]), ex.strSlice([]*Term{a[2].(*Term)}))
+		return nil
+	})
+	reg("(net/http.Header).Add", func(ex *Exec, fn *ssa.Function, a []Value) Value {
+		m := a[0].(*MapV)
+		if m == nil {
+			ex.goPanic("assignment to entry in nil map (http.Header)")
+		}
+		k := canon(a[1])
+		if old, ok := ex.mapGet(m, k); ok {
+			ex.mapSet(m, k, ex.doAppend(old, ex.strSlice([]*Term{a[2].(*Term)}), nil))
+		} else {
+			ex.mapSet(m, k, ex.strSlice([]*Term{a[2].(*Term)}))
+		}
+		return nil
+	})
+	reg("(net/http.Header).Get", func(ex *Exec, fn *ssa.Function, a []Value) Value {
+		m := a[0].(*MapV)
+		if v, ok := ex.mapGet(m, canon(a[1])); ok {
+			if s := v.(SliceV); s.Len > 0 {
+				return s.get(0)
+			}
+		}
+		return StrLit("")
+	})
+	reg("(net/http.Header).Values", func(ex *Exec, fn *ssa.Function, a []Value) Value {
+		m := a[0].(*MapV)
+		if v, ok := ex.mapGet(m, canon(a[1])); ok {
+			return v
+		}
+		return SliceV{}
+	})
+	reg("(net/http.Header).Del", func(ex *Exec, fn *ssa.Function, a []Value) Value {
+		ex.mapDelete(a[0].(*MapV), canon(a[1]))
+		return nil
+	})
+	reg("net/http.CanonicalHeaderKey", func(ex *Exec, fn *ssa.Function, a []Value) Value { return canon(a[0]) })
+	reg("net/http.StatusText", func(ex *Exec, fn *ssa.Function, a []Value) Value {
+		c := a[0].(*Term)
+		if c.IsLit() {
+			return StrLit(httpStatusText(int(c.I.Int64())))
+		}
+		return UF("http.StatusText", SSeq, c)
+	})
+
+	// --- http.Error / http.Redirect / SetCookie through the ResponseWriter's own methods
+	reg("net/http.Error", func(ex *Exec, fn *ssa.Function, a []Value) Value {
+		h := ex.rwHeader(a[0])
+		ex.mapDelete(h, StrLit("Content-Length"))
+		ex.mapSet(h, StrLit("Content-Type"), ex.strSlice([]*Term{StrLit("text/plain; charset=utf-8")}))
+		ex.mapSet(h, StrLit("X-Content-Type-Options"), ex.strSlice([]*Term{StrLit("nosniff")}))
+		ex.rwWriteHeader(a[0], a[2])
+		ex.writeTo(a[0], SeqConcat(a[1].(*Term), StrLit("\n")))
+		return nil
+	})
+	reg("net/http.Redirect", func(ex *Exec, fn *ssa.Function, a []Value) Value {
+		h := ex.rwHeader(a[0])
+		ex.mapSet(h, StrLit("Location"), ex.strSlice([]*Term{a[2].(*Term)}))
+		ex.run.note("http.Redirect: Location is the url argument as given (relative-URL resolution and non-ASCII hex escaping not modelled)")
+		sv, t := reqOf(ex, a[1])
+		method := sv.Fields[fieldIndex(t, "Method")].(*Term)
+		isGet := Or(Eq(method, StrLit("GET")), Eq(method, StrLit("HEAD")))
+		if ex.Branch(isGet) {
+			ex.mapSet(h, StrLit("Content-Type"), ex.strSlice([]*Term{StrLit("text/html; charset=utf-8")}))
+		}
+		ex.rwWriteHeader(a[0], a[3])
+		return nil
+	})
+	reg("net/http.SetCookie", func(ex *Exec, fn *ssa.Function, a []Value) Value {
+		h := ex.rwHeader(a[0])
+		rec := ex.ghostList("cookies.set")
+		cp := a[1].(Ptr)
+		rec = append(rec, copyVal(*cp.slot()))
+		ex.ghost["cookies.set"] = rec
+		_ = h
+		return nil
+	})
+
+	// --- reflect (only what MarshalJSONWithStatus and a few nil tests need)
+	reg("reflect.ValueOf", func(ex *Exec, fn *ssa.Function, a []Value) Value {
+		rv := zeroValue(fn.Signature.Results().At(0).Type()).(*StructV)
+		rv.Fields[0] = a[0]
+		return rv
+	})
+	reg("(reflect.Value).Kind", func(ex *Exec, fn *ssa.Function, a []Value) Value {
+		iv, _ := a[0].(*StructV).Fields[0].(Iface)
+		if iv.T == nil {
+			return IntLit(0)
+		}
+		switch iv.T.Underlying().(type) {
+		case *types.Pointer:
+			return IntLit(22)
+		case *types.Struct:
+			return IntLit(25)
+		case *types.Map:
+			return IntLit(21)
+		case *types.Slice:
+			return IntLit(23)
+		case *types.Interface:
+			return IntLit(20)
+		case *types.Signature:
+			return IntLit(19)
+		case *types.Chan:
+			return IntLit(18)
+		case *types.Basic:
+			if iv.T.Underlying().(*types.Basic).Info()&types.IsString != 0 {
+				return IntLit(24)
+			}
+			return IntLit(2)
+		}
+		return IntLit(25)
+	})
+	reg("(reflect.Value).IsNil", func(ex *Exec, fn *ssa.Function, a []Value) Value {
+		iv, _ := a[0].(*StructV).Fields[0].(Iface)
+		switch x := iv.V.(type) {
+		case Ptr:
+			return BoolLit(x.Obj == nil)
+		case *MapV:
+			return BoolLit(x == nil)
+		case SliceV:
+			return BoolLit(x.Arr == nil)
+		case *Closure:
+			return BoolLit(x == nil)
+		}
+		if iv.T == nil {
+			ex.goPanic("reflect: call of reflect.Value.IsNil on zero Value")
+		}
+		ex.goPanic("reflect: call of reflect.Value.IsNil on non-nillable Value")
+		return nil
+	})
+	reg("(reflect.Value).Interface", func(ex *Exec, fn *ssa.Function, a []Value) Value { return a[0].(*StructV).Fields[0] })
+
+	// --- url escaping at the UF level (C11 runs the real net/url code instead)
+	reg("net/url.QueryUnescape", func(ex *Exec, fn *ssa.Function, a []Value) Value { return ex.queryUnescape(a[0].(*Term)) })
+	reg("net/url.QueryEscape", func(ex *Exec, fn *ssa.Function, a []Value) Value {
+		if ex.realBody("url.QueryEscape") {
+			return ex.callBody(fn, a)
+		}
+		s := a[0].(*Term)
+		if s.IsLit() {
+			return StrLit(urlQueryEscape(s.S))
+		}
+		return UF("qesc", SSeq, s)
+	})
+	reg("net/url.PathUnescape", func(ex *Exec, fn *ssa.Function, a []Value) Value { return ex.queryUnescape(a[0].(*Term)) })
+}
+
+func (ex *Exec) strSlice(ts []*Term) SliceV {
+	arr := &ArrayV{Elems: make([]Value, len(ts))}
+	for i, t := range ts {
+		arr.Elems[i] = t
+	}
+	return SliceV{Arr: ex.newObj(arr, nil), Len: len(ts), Cap: len(ts)}
+}
+
+func (ex *Exec) rwMethod(w Value, name string, args ...Value) Value {
+	iv := w.(Iface)
+	if iv.T == nil {
+		ex.goPanic("nil http.ResponseWriter")
+	}
+	rt := ex.eng.LookupType("net/http", "ResponseWriter").Underlying().(*types.Interface)
+	for i := 0; i < rt.NumMethods(); i++ {
+		if rt.Method(i).Name() == name {
+			return ex.invoke(iv, rt.Method(i), args)
+		}
+	}
+	panic(engineErr("no ResponseWriter method %s", name))
+}
+func (ex *Exec) rwHeader(w Value) *MapV {
+	m := ex.rwMethod(w, "Header").(*MapV)
+	if m == nil {
+		ex.goPanic("nil http.Header from ResponseWriter")
+	}
+	return m
+}
+func (ex *Exec) rwWriteHeader(w Value, code Value) { ex.rwMethod(w, "WriteHeader", code) }
+
+func (ex *Exec) queryUnescape(s *Term) Value {
+	if s.Op == "uf" && s.Name == "uf_"+mangle("qesc") {
+		return Tuple{s.Args[0], Iface{}}
+	}
+	if s.IsLit() {
+		r, err := urlQueryUnescape(s.S)
+		if err != nil {
+			return Tuple{StrLit(""), errorIface(ex, "url.EscapeError")}
+		}
+		return Tuple{StrLit(r), Iface{}}
+	}
+	// a literal prefix with a malformed escape decides the outcome
+	if ps := seqParts(s); len(ps) > 0 && ps[0].IsLit() {
+		if _, err := urlQueryUnescape(ps[0].S); err != nil && !endsWithPartialEscape(ps[0].S) {
+			return Tuple{StrLit(""), errorIface(ex, "url.EscapeError")}
+		}
+	}
+	if ex.Branch(UF("unesc.ok", SBool, s)) {
+		return Tuple{UF("unesc", SSeq, s), Iface{}}
+	}
+	return Tuple{StrLit(""), errorIface(ex, "url.EscapeError")}
+}
+
+func (ex *Exec) requestCookie(r Value, name *Term, fn *ssa.Function) Value {
+	jar, _ := ex.ghost["cookies.jar"].(*MapV)
+	cpt := fn.Signature.Results().At(0).Type()
+	if jar != nil {
+		if v, ok := ex.mapGet(jar, name); ok {
+			ct := cpt.(*types.Pointer).Elem()
+			c := zeroValue(ct).(*StructV)
+			c.Fields[fieldIndex(ct, "Name")] = name
+			c.Fields[fieldIndex(ct, "Value")] = v
+			return Tuple{Ptr{Obj: ex.newObj(c, ct)}, Iface{}}
+		}
+	}
+	g := ex.eng.pkgs["net/http"].Var("ErrNoCookie")
+	return Tuple{Ptr{}, copyVal(ex.globalObj(g).V)}
+}
+
+// ======================= schema codec (tag driven) =======================
+
+func schemaTag(s *types.Struct, i int) (name string, omitempty bool, skip bool) {
+	tag := reflectTag(s.Tag(i), "schema")
+	if tag == "-" {
+		return "", false, true
+	}
+	parts := splitComma(tag)
+	name = parts[0]
+	for _, p := range parts[1:] {
+		if p == "omitempty" {
+			omitempty = true
+		}
+	}
+	if name == "" {
+		name = s.Field(i).Name()
+	}
+	return
+}
+
+func (ex *Exec) textUnmarshaler(t types.Type) (*ssa.Function, bool) {
+	ms := ex.eng.prog.MethodSets.MethodSet(types.NewPointer(t))
+	for k := 0; k < ms.Len(); k++ {
+		if ms.At(k).Obj().Name() == "UnmarshalText" {
+			fn := ex.eng.prog.MethodValue(ms.At(k))
+			return fn, fn != nil
+		}
+	}
+	return nil, false
+}
+
+// schemaDecodeStruct fills dst (pointer to struct) from the form; returns false on a conversion error.
+func (ex *Exec) schemaDecodeStruct(dst Ptr, t types.Type, form *MapV) bool {
+	st := structOf(t)
+	ok := true
+	for i := 0; i < st.NumFields(); i++ {
+		f := st.Field(i)
+		ft := f.Type()
+		fp := dst.child(i)
+		if f.Embedded() {
+			if _, isS := ft.Underlying().(*types.Struct); isS {
+				if !ex.schemaDecodeStruct(fp, ft, form) {
+					ok = false
+				}
+				continue
+			}
+		}
+		if !f.Exported() {
+			continue
+		}
+		name, _, skip := schemaTag(st, i)
+		if skip {
+			continue
+		}
+		raw, present := ex.mapGet(form, StrLit(name))
+		if !present {
+			continue
+		}
+		vals := raw.(SliceV)
+		if vals.Len == 0 {
+			continue
+		}
+		if !ex.schemaSet(fp, ft, vals) {
+			ok = false
+		}
+	}
+	return ok
+}
+
+func (ex *Exec) schemaSet(fp Ptr, ft types.Type, vals SliceV) bool {
+	v0 := vals.get(0).(*Term)
+	// pointer fields: allocate when a non-empty value is present
+	if pt, isP := ft.Underlying().(*types.Pointer); isP {
+		if ex.Branch(Eq(v0, StrLit(""))) {
+			return true
+		}
+		o := ex.newObj(zeroValue(pt.Elem()), pt.Elem())
+		if !ex.schemaSet(Ptr{Obj: o}, pt.Elem(), vals) {
+			return false
+		}
+		*fp.slot() = Ptr{Obj: o}
+		return true
+	}
+	if fn, ok := ex.textUnmarshaler(ft); ok {
+		// gorilla/schema leaves the field untouched for an empty value
+		if ex.Branch(Eq(v0, StrLit(""))) {
+			return true
+		}
+		r := ex.callFunction(fn, []Value{fp, BytesV{T: v0}}, nil)
+		if e, ok := r.(Iface); ok && e.T != nil {
+			return false
+		}
+		return true
+	}
+	switch u := ft.Underlying().(type) {
+	case *types.Basic:
+		switch {
+		case u.Info()&types.IsString != 0:
+			*fp.slot() = v0
+			return true
+		case u.Info()&types.IsBoolean != 0:
+			if ex.Branch(Eq(v0, StrLit(""))) {
+				return true
+			}
+			if !ex.Branch(UF("parsebool.ok", SBool, v0)) {
+				return false
+			}
+			*fp.slot() = UF("parsebool", SBool, v0)
+			return true
+		case u.Info()&types.IsInteger != 0:
+			if ex.Branch(Eq(v0, StrLit(""))) {
+				return true
+			}
+			if !ex.Branch(UF("atoi.ok", SBool, v0, StrLit(u.Name()))) {
+				return false
+			}
+			n := UF("atoi", SInt, v0)
+			lo, hi, _ := intRange(ft)
+			ex.assume(And(Ge(n, BigLit(lo)), Le(n, BigLit(hi))))
+			*fp.slot() = n
+			return true
+		}
+	case *types.Slice:
+		if eb, ok := u.Elem().Underlying().(*types.Basic); ok && eb.Info()&types.IsString != 0 {
+			ts := make([]*Term, vals.Len)
+			for k := 0; k < vals.Len; k++ {
+				ts[k] = vals.get(k).(*Term)
+			}
+			*fp.slot() = ex.strSlice(ts)
+			return true
+		}
+	}
+	panic(engineErr("schema decode: unsupported field type %s", ft))
+}
+
+func (ex *Exec) schemaEncodeStruct(sv *StructV, t types.Type, dst *MapV) {
+	st := structOf(t)
+	for i := 0; i < st.NumFields(); i++ {
+		f := st.Field(i)
+		ft := f.Type()
+		if f.Embedded() {
+			if _, isS := ft.Underlying().(*types.Struct); isS {
+				ex.schemaEncodeStruct(sv.Fields[i].(*StructV), ft, dst)
+				continue
+			}
+		}
+		if !f.Exported() {
+			continue
+		}
+		name, omit, skip := schemaTag(st, i)
+		if skip {
+			continue
+		}
+		var out *Term
+		empty := tFalse
+		switch v := sv.Fields[i].(type) {
+		case *Term:
+			switch v.Sort {
+			case SSeq:
+				out, empty = v, Eq(v, StrLit(""))
+			case SInt:
+				if v.IsLit() {
+					out = StrLit(v.I.String())
+				} else {
+					out = UF("itoa", SSeq, v)
+				}
+				empty = Eq(v, IntLit(0))
+			case SBool:
+				out, empty = Ite(v, StrLit("true"), StrLit("false")), Not(v)
+			}
+		case SliceV:
+			// SpaceDelimitedArray (registered encoder) and plain []string
+			ts := make([]*Term, 0, v.Len*2)
+			for k := 0; k < v.Len; k++ {
+				if k > 0 {
+					ts = append(ts, StrLit(" "))
+				}
+				ts = append(ts, v.get(k).(*Term))
+			}
+			out, empty = SeqConcat(ts...), BoolLit(v.Len == 0)
+			if !namedIs(ft, repoMod+"/pkg/oidc", "SpaceDelimitedArray") {
+				if v.Len == 0 {
+					continue
+				}
+				tt := make([]*Term, v.Len)
+				for k := range tt {
+					tt[k] = v.get(k).(*Term)
+				}
+				ex.mapSet(dst, StrLit(name), ex.strSlice(tt))
+				continue
+			}
+		case Ptr:
+			if v.Obj == nil {
+				continue
+			}
+			panic(engineErr("schema encode: pointer field %s unsupported", f.Name()))
+		default:
+			continue
+		}
+		if out == nil {
+			continue
+		}
+		if omit && ex.Branch(empty) {
+			continue
+		}
+		ex.mapSet(dst, StrLit(name), ex.strSlice([]*Term{out}))
+	}
+}
+
+func init() {
+	reg("(*"+schemaPkg+".Decoder).Decode", func(ex *Exec, fn *ssa.Function, a []Value) Value {
+		iv, ok := a[1].(Iface)
+		if !ok || iv.T == nil {
+			return errorIface(ex, "schema: interface must be a pointer to struct")
+		}
+		pt, isP := iv.T.Underlying().(*types.Pointer)
+		p, _ := iv.V.(Ptr)
+		if !isP || p.Obj == nil || structOf(pt.Elem()) == nil {
+			return errorIface(ex, "schema: interface must be a pointer to struct")
+		}
+		form, _ := a[2].(*MapV)
+		if !ex.schemaDecodeStruct(p, pt.Elem(), form) {
+			return errorIface(ex, "schema.ConversionError")
+		}
+		return Iface{}
+	})
+	reg("(*"+schemaPkg+".Encoder).Encode", func(ex *Exec, fn *ssa.Function, a []Value) Value {
+		iv, ok := a[1].(Iface)
+		if !ok || iv.T == nil {
+			return errorIface(ex, "schema: nil source")
+		}
+		dst := a[2].(*MapV)
+		if dst == nil {
+			ex.goPanic("assignment to entry in nil map (schema encode)")
+		}
+		t := iv.T
+		v := iv.V
+		if pt, isP := t.Underlying().(*types.Pointer); isP {
+			p := v.(Ptr)
+			if p.Obj == nil {
+				return errorIface(ex, "schema: nil pointer source")
+			}
+			t, v = pt.Elem(), *p.slot()
+		}
+		sv, isS := v.(*StructV)
+		if !isS {
+			return errorIface(ex, "schema: interface must be a struct")
+		}
+		ex.schemaEncodeStruct(sv, t, dst)
+		return Iface{}
+	})
 }
